@@ -120,10 +120,12 @@ class Clock:
         self.table = JITTER_TABLES[profile]
         self.effect_cost_us = effect_cost_us
 
+    wall_offset_us = 0  # steps of the wall clock (NTP corrections, manual changes) that monotonic clocks do not see
+
     def read(self):
         self.reads += 1
         self.now_us += self.table[h64(self.env_seed, "clk", self.reads) % len(self.table)]
-        return self.now_us
+        return self.now_us + self.wall_offset_us
 
     def effect(self):
         self.now_us += self.effect_cost_us
@@ -651,7 +653,7 @@ def _send_result(exit_after=True):
 class SimWriteFile:
     """user-space buffered writer whose raw writes are numbered effects (and therefore kill points)"""
 
-    def __init__(self, path, rel, mode, encoding=None):
+    def __init__(self, path, rel, mode, encoding=None, opener=None):
         self.name = path
         self.mode = mode
         self._rel = rel
@@ -673,7 +675,11 @@ class SimWriteFile:
         else:
             flags |= os.O_TRUNC
             kind = "creat"
-        self._fd = _effect(kind, rel, 0, apply=lambda: R_os_open(path, flags, 0o644))
+        if opener is not None:
+            # open(..., opener=f): f receives the flags the mode implies and decides itself what it passes to the OS
+            self._fd = _effect(kind, rel, 0, apply=lambda: opener(path, flags))
+        else:
+            self._fd = _effect(kind, rel, 0, apply=lambda: R_os_open(path, flags, 0o644))
 
     def write(self, data):
         if self.closed:
@@ -894,7 +900,7 @@ class SimReadFile:
 
 
 def _sim_open(file, mode="r", buffering=-1, encoding=None, errors=None, newline=None, closefd=True, opener=None):
-    if isinstance(file, int) or opener is not None:
+    if isinstance(file, int):
         return R_open(file, mode, buffering, encoding, errors, newline, closefd, opener)
     rel = _rel(file)
     if rel is None:
@@ -902,7 +908,9 @@ def _sim_open(file, mode="r", buffering=-1, encoding=None, errors=None, newline=
     path = os.fspath(file)
     writing = any(c in mode for c in "wax+")
     if writing:
-        return SimWriteFile(path, rel, mode, encoding)
+        return SimWriteFile(path, rel, mode, encoding, opener)
+    if opener is not None:
+        return R_open(file, mode, buffering, encoding, errors, newline, closefd, opener)
     if "b" in mode:
         return SimReadFile(path, rel)
     # text-mode read (pattern files): real file, counted
@@ -1437,6 +1445,21 @@ def apply_env(world, op):
                 return False
             R_makedirs(os.path.dirname(dst), exist_ok=True)
             os.link(src, dst)
+            _stamp(world, os.path.dirname(dst))
+            fired = True
+    elif kind == "copy_tree":
+        # `cp -a src dst`: a byte-identical copy (own inodes) with the same modification times, e.g. a camera card with
+        # its history copied to a second drive
+        src = _env_path(world, op["src"])
+        dst = _env_path(world, op["dst"])
+        if os.path.isdir(src) and not os.path.lexists(dst) and not (dst + os.sep).startswith(src + os.sep):
+            q = os.path.dirname(dst)
+            while q and not os.path.lexists(q):
+                q = os.path.dirname(q)
+            if not os.path.isdir(q):
+                return False
+            R_makedirs(os.path.dirname(dst), exist_ok=True)
+            copy_world_tree(src, dst)
             _stamp(world, os.path.dirname(dst))
             fired = True
     elif kind == "link_tree":
